@@ -239,7 +239,7 @@ FUNCS = {
     2: ('BibTeXEngine.make_bibliography / format_from_files / format_from_string(s) / format_from_file (synthetic style)', impl_engine, ('T', 'X', 'X')),
     3: ('shipped style end to end (citations after READ, items, sort keys, entry points)', impl_real, ('T', ('L', E), ('L', 'S'), 'N', 'X', 'X')),
     4: ('Interpreter.command_sort', impl_sort, ('L', ('T', 'S', ('O', 'S')))),
-    5: ('metamorphic pair: database vs variant, same citations and style', impl_pair, ('T', ('L', E), ('L', E), ('L', 'S'), 'N', 'X', 'X')),
+    5: ('metamorphic pair: database vs variant, same citations and style', impl_pair, ('T', 'X', 'X', ('L', 'S'), 'N', 'X', 'X')),      # the two databases stay a pair under shrinking
     6: ('posixpath.splitext', impl_splitext, 'S'),
 }
 
@@ -438,6 +438,16 @@ PBC = '[parent-before-child] '
 def _is_f13(kind, fn, arg, detail):
     """F13: an entry that is cross-referenced but not cited stands before an entry referring to it, and the failure
     is the one that explains: (3) the items are exactly those of BibTeX's one-pass reading, (5) only the file order differs"""
+    if kind == 'mismatch':
+        # the model says the two file orders do not look the same to READ (F13: one of them drops a cross-referenced
+        # entry) while this style happens not to show the difference: the known finding without a visible effect.
+        # (the other direction -- same READ, different output -- is never excused)
+        try:
+            mo, io = detail
+            return (fn == 5 and arg[5] == 1 and mo == 0 and io[0] == 0 and io[1][0] == 1 and sorted(arg[0]) == sorted(arg[1])
+                    and [42] not in arg[2] and (_f13_shape(arg[0], arg[2]) or _f13_shape(arg[1], arg[2])))
+        except Exception:
+            return False
     if kind != 'oracle':
         return False
     if fn == 2:
@@ -833,5 +843,13 @@ def extra_checks(ck, tier, rng):
                 if got != want:
                     fails.append(('pybtex ' + ' '.join(argv), 'doc.bbl differs from the explicit call (style %s, format %s, min_crossrefs %d): %r vs %r; bib %r, citations %r'
                                   % (sty, U.SUFFIX[fmt], m, got[:200], want[:200], U.bib_text(norm(db))[:300], cites), True))
+    # the syntactic predicate of theorem items_per_citation, evaluated on the shipped styles' ASTs
+    pred, pf = {}, []
+    for sname in U.STYLES_THOROUGH:
+        ok, why = U.style_item_predicate(sname, [t for t in RTYPES])
+        pred[sname] = [ok, why]
+        if sname in ('plain', 'unsrt', 'alpha', 'unsrt_mixed', 'apacite') and not ok:
+            pf.append((sname + '.bst', 'no longer has the shape theorem items_per_citation speaks about: ' + why, False))
+    yield {'name': 'item_predicate_on_shipped_styles', 'evaluations': len(pred), 'failures': pf, 'info': pred}
     yield {'name': 'command_line_plumbing', 'evaluations': n, 'failures': fails[:5],
            'info': 'pybtex [-s style] [-f format] [--min-crossrefs n] file[.aux] writes what format_from_files(style, format, min_crossrefs) returns'}
